@@ -27,6 +27,11 @@ def gen_list(rng, n, allow_unknown=False):
     for _ in range(n):
         r, p = rng.choice(templ)
         r, p = r[:], p[:]
+        # multiplicity variants: same species sets, different counts
+        if rng.random() < 0.2 and len(r) < 3:
+            r.append(rng.choice(r))
+        if rng.random() < 0.2 and p and len(p) < 5:
+            p.append(rng.choice(p))
         rng.shuffle(r)
         rng.shuffle(p)
         w = rng.choice(WINDOWS[:3]) if rng.random() < 0.7 else rng.choice(WINDOWS)
@@ -173,7 +178,9 @@ def run(res, info):
             dict(r=["C", "H"], p=["CO"], tmin=-1.0, tmax=-1.0, type=100, idx=1),
             dict(r=["H", "C"], p=["CO"], tmin=10.0, tmax=300.0, type=100, idx=2),
             dict(r=["H", "H"], p=["H2"], tmin=-1.0, tmax=-1.0, type=100, idx=3),
-            dict(r=["H", "C"], p=["CO"], tmin=-1.0, tmax=-1.0, type=101, idx=4)]
+            dict(r=["H", "C"], p=["CO"], tmin=-1.0, tmax=-1.0, type=101, idx=4),
+            dict(r=["H", "H", "C"], p=["CO"], tmin=-1.0, tmax=-1.0, type=100, idx=5),
+            dict(r=["H", "C"], p=["CO", "CO"], tmin=-1.0, tmax=-1.0, type=100, idx=6)]
     import itertools
     maxlen = 3 if res.tier == "quick" else 4
     for L in range(0, maxlen + 1):
